@@ -1,5 +1,7 @@
 import OnetVerif.Model.C12
 import OnetVerif.Gen.C12
+import OnetVerif.Props.C12
+import OnetVerif.Props.C12Flat
 /-! Property C12 — the definitions regenerated from the Go source (`Gen/C12.lean`, written by `harness/cmd/go2lean` on
 every check run from `tree.go`): the three wrappers `Roster.GenerateNaryTree`, `GenerateBinaryTree`, `GenerateStar`.
 `GenerateNaryTreeWithRoot` (nested loops, `break`) is outside the translated subset; it is a **parameter** of the
@@ -194,4 +196,132 @@ example : let leaf : Gen.C12.TreeNode := { Parent := none, Children := [] }
     Gen.C12.Tree_IsNary 3 .noTree root 2 = some true ∧ Gen.C12.Tree_IsNary 3 .noTree root 3 = some false ∧
     Gen.C12.TreeNode_IsRoot root = true ∧ Gen.C12.TreeNode_IsLeaf root = false ∧ heightF 3 root < 3 := by
   refine ⟨by decide, by decide, rfl, by decide, by decide⟩
+
+/-! ### the pointer tree of a tree in creation order, and `Tree.IsNary` on it = the model's flat `isNary` -/
+
+/-- the pointer tree (as far as the translation keeps it: `Parent` nil or not, `Children`) below position `p` of a
+parent list, `f` levels deep; a non-root node points to a stub parent (the translated predicates only test it for nil) -/
+def toPtr (par : List Nat) : Nat → Nat → Gen.C12.TreeNode
+  | 0, p => { Parent := if p = 0 then none else some { Parent := none, Children := [] }, Children := [] }
+  | f + 1, p => { Parent := if p = 0 then none else some { Parent := none, Children := [] },
+                  Children := (kidsP par p).map (toPtr par f) }
+
+private theorem isEmpty_eq_length_beq {α} (l : List α) : l.isEmpty = (l.length == 0) := by
+  cases l <;> rfl
+
+private theorem int_beq (a b : Nat) : ((a : Int) == (b : Int)) = (a == b) := by
+  rw [Bool.eq_iff_iff]; simp only [beq_iff_eq]; omega
+
+theorem toPtr_children_length (par : List Nat) (f p : Nat) :
+    (toPtr par (f + 1) p).Children.length = par.count p := by
+  simp [toPtr, kidsP_length]
+
+/-- `IsRoot` / `IsLeaf` as translated, on the pointer tree of a list: position 0 is the root; a node is a leaf iff
+no later node names it as its parent (`arity = 0`) -/
+theorem c12_gen_IsRoot_IsLeaf_flat (t : Nodes) (f p : Nat) :
+    Gen.C12.TreeNode_IsRoot (toPtr (parentsOf t) (f + 1) p) = (p == 0) ∧
+    Gen.C12.TreeNode_IsLeaf (toPtr (parentsOf t) (f + 1) p) = (arity t p == 0) := by
+  constructor
+  · rw [c12_gen_IsRoot_eq]
+    by_cases h : p = 0 <;> simp [toPtr, h]
+  · rw [c12_gen_IsLeaf_eq, arity_eq_count, ← kidsP_length]
+    simp only [toPtr, List.isEmpty_map]
+    exact isEmpty_eq_length_beq _
+
+private theorem naryF_toPtr (par : List Nat) (M : Nat) :
+    ∀ (f p : Nat), naryF (Int.ofNat M) f (toPtr par f p) = naryAtP par M f p := by
+  intro f
+  induction f with
+  | zero => intro p; rfl
+  | succ f ih =>
+    intro p
+    have hl := toPtr_children_length par f p
+    have h1 : (Int.ofNat (toPtr par (f + 1) p).Children.length == Int.ofNat M) = (par.count p == M) := by
+      rw [hl]; exact int_beq _ _
+    have h2 : (toPtr par (f + 1) p).Children.isEmpty = (par.count p == 0) := by
+      rw [isEmpty_eq_length_beq, hl]
+    simp only [naryF, naryAtP, okP, h1, h2]
+    congr 1
+    simp only [toPtr, List.all_map]
+    apply List.all_congr rfl
+    intro q
+    exact ih q
+
+/-- **the translated `Tree.IsNary` on the pointer tree of a well-formed node list = the model's flat `isNary`**:
+for every list in creation order in which every parent precedes its child, with fuel above the number of nodes the
+call returns, and it returns `isNary t M` — the recursion from the root reaches every node, the flat predicate looks
+at every position.  Falsified by: a recursion that skips a child, stops after the first level, or tests `<= N`. -/
+theorem c12_gen_IsNary_flat (t : Nodes) (hne : t ≠ []) (wf : ∀ i m p, 1 ≤ i → t[i]? = some (m, p) → p < i)
+    (M fuel : Nat) (hf : t.length ≤ fuel) (x : Outcome Nodes) (r : Bool)
+    (h : Gen.C12.Tree_IsNary fuel x (toPtr (parentsOf t) fuel 0) (Int.ofNat M) = some r) :
+    r = isNary t M := by
+  rw [c12_gen_IsNary_eq x _ fuel _ r h, naryF_toPtr, isNary_eq_allOkP t hne]
+  apply naryAtP_root_eq _ _ _ (wfp_of_nodes t wf)
+  have : t.length = (parentsOf t).length + 1 := by
+    cases t with
+    | nil => exact absurd rfl hne
+    | cons a r => simp [parentsOf]
+  omega
+
+
+private theorem foldl_max_le (B : Nat) : ∀ (l : List Nat) (a : Nat), a ≤ B → (∀ x ∈ l, x ≤ B) → l.foldl max a ≤ B := by
+  intro l
+  induction l with
+  | nil => intro a ha _; simpa using ha
+  | cons y ys ih =>
+    intro a ha hall
+    simp only [List.foldl_cons]
+    exact ih _ (by have := hall y List.mem_cons_self; omega) (fun x hx => hall x (List.mem_cons_of_mem _ hx))
+
+private theorem height_toPtr (par : List Nat) (wf : WFP par) :
+    ∀ (f p : Nat), p ≤ par.length → heightF f (toPtr par f p) + p ≤ par.length := by
+  intro f
+  induction f with
+  | zero => intro p hp; simpa [heightF] using hp
+  | succ f ih =>
+    intro p hp
+    simp only [heightF, toPtr, List.map_map]
+    have : List.foldl max 0 ((kidsP par p).map ((fun c => heightF f c + 1) ∘ toPtr par f)) ≤ par.length - p := by
+      apply foldl_max_le _ _ _ (Nat.zero_le _)
+      intro x hx
+      obtain ⟨q, hq, rfl⟩ := List.mem_map.mp hx
+      obtain ⟨j, hj, hpj, rfl⟩ := mem_kidsP.mp hq
+      have := ih (j + 1) (by omega)
+      have := wf j hj
+      simp only [Function.comp]
+      omega
+    omega
+
+/-- … and with fuel above the number of nodes the call does return (the height of the pointer tree of a well-formed
+list is below the number of its nodes): together with `c12_gen_IsNary_flat`, the translated `IsNary` *is* `isNary` -/
+theorem c12_gen_IsNary_flat_total (t : Nodes) (hne : t ≠ []) (wf : ∀ i m p, 1 ≤ i → t[i]? = some (m, p) → p < i)
+    (M fuel : Nat) (hf : t.length ≤ fuel) (x : Outcome Nodes) :
+    Gen.C12.Tree_IsNary fuel x (toPtr (parentsOf t) fuel 0) (Int.ofNat M) = some (isNary t M) := by
+  have hl : t.length = (parentsOf t).length + 1 := by
+    cases t with
+    | nil => exact absurd rfl hne
+    | cons a r => simp [parentsOf]
+  have hh := height_toPtr _ (wfp_of_nodes t wf) fuel 0 (Nat.zero_le _)
+  obtain ⟨r, hr⟩ := c12_gen_IsNary_total x (Int.ofNat M) fuel (toPtr (parentsOf t) fuel 0) (by omega)
+  rw [hr, c12_gen_IsNary_flat t hne wf M fuel hf x r hr]
+
+/-- **for the generated n-ary tree the translated `IsNary(N)`, run on its pointer tree, answers "`N` divides `n − 1`"**
+(`c12_nary_isNary_iff` carried over to the code's own recursive predicate) -/
+theorem c12_gen_IsNary_generated (N n root fuel : Nat) (hN : 1 ≤ N) (hn : 1 ≤ n) (hr : root < n) (hf : n ≤ fuel)
+    (x : Outcome Nodes) :
+    Gen.C12.Tree_IsNary fuel x (toPtr (parentsOf (naryClosed N root n)) fuel 0) (Int.ofNat N) =
+      some (decide ((n - 1) % N = 0)) := by
+  obtain ⟨s1, _, _, s4⟩ := c12_nary_shape N n root hn hr
+  have hne : naryClosed N root n ≠ [] := by
+    intro h0; rw [h0] at s1; simp at s1; omega
+  rw [c12_gen_IsNary_flat_total _ hne s4 N fuel (by omega) x]
+  congr 1
+  rw [Bool.eq_iff_iff, c12_nary_isNary_iff N n root hN hn]
+  simp
+
+/-- non-vacuity: the call does return on the pointer tree of the generated binary tree of 5 and of 6 servers -/
+example : Gen.C12.Tree_IsNary 7 .noTree (toPtr (parentsOf (naryClosed 2 1 5)) 7 0) 2 = some true ∧
+    Gen.C12.Tree_IsNary 7 .noTree (toPtr (parentsOf (naryClosed 2 1 6)) 7 0) 2 = some false := by
+  constructor <;> decide
+
 end C12
